@@ -21,6 +21,10 @@ DUP_PROB = 0.06
 # RSQRT normally reads a positive tensor; a check may allow any operand (NaN in the float model)
 RSQRT_ANY = False
 STATEFUL_ANYWHERE = False
+# probability that a BATCH_MATMUL constant right-hand side is square (both axes = channel count)
+BMM_SQUARE_PROB = 0.35
+# probability that all subgraphs of a multi-subgraph model carry the same (or no) name
+SAME_SG_NAME_PROB = 0.3
 # value distribution of generated float constants (a check may narrow it)
 CONST_KINDS = ['normal'] * 6 + ['pos', 'neg', 'tiny', 'big', 'zero']
 
@@ -272,6 +276,8 @@ class GraphBuilder:
       if x is None:
         return False
       m = rng.choice([2, 3, 4])
+      if rng.random() < BMM_SQUARE_PROB:
+        m = x[1][1]          # SQUARE right-hand side: both axes have the channel count
       adjy = rng.random() < 0.4
       if rng.random() < 0.8:
         yshape = [m, x[1][1]] if adjy else [x[1][1], m]
@@ -534,6 +540,12 @@ def gen_model(rng, n_subgraphs=None, max_ops=8, op_weights=None, force_share=Fal
         if m:
           tc.buffer = g0.g.tensors[rng.choice(m)].buffer
           break
+  # subgraph NAMES need not be unique (models assembled from single-signature
+  # models are all called 'main'; object-API models often have no name)
+  r = rng.random()
+  if n_subgraphs > 1 and r < SAME_SG_NAME_PROB:
+    for gb in gbs:
+      gb.g.name = b'main' if r < SAME_SG_NAME_PROB * 0.7 else None
   return mb.finish(), {'n_subgraphs': n_subgraphs,
                        'ops': [g.nops for g in gbs]}
 
